@@ -1,12 +1,18 @@
 package mon
 
 import (
-	"os"
+	"bytes"
 	"encoding/json"
 	"fmt"
 	"math/rand"
+	"os"
+	"os/exec"
+	"path/filepath"
+	"regexp"
 	"sort"
+	"strconv"
 	"strings"
+	"time"
 
 	gpb "github.com/openconfig/gnmi/proto/gnmi"
 	"github.com/openconfig/ygot/gnmidiff"
@@ -362,6 +368,179 @@ func mutateTV(tv *gpb.TypedValue, rng *rand.Rand) string {
 
 func nan() float64 { var z float64; return z / z }
 
+// c20Inputs produces, for tree (seed, i) of cfg, the seed inputs and their
+// structure-aware mutants for every target and hands them to run.  It returns
+// the size of the JSON seed and the number of leaf updates (for samples).
+func c20Inputs(cfg *lib.Cfg, seed int64, i int, targets []FuzzTarget, run func(tg FuzzTarget, data []byte, mutation string)) (int, int) {
+	opt := lib.DefaultGen()
+	opt.OrderedSiblings = true
+	opt.Unkeyed = i%2 == 0
+	t := lib.NewGen(cfg, seed, i, opt).Tree()
+	o := cfg.Observe(t)
+	rng := rand.New(rand.NewSource(seed*7121 + int64(i)))
+	// --- seeds
+	var jsonSeed []byte
+	if j, err := emit(t, nil); err == nil {
+		jsonSeed = []byte(j)
+	} else if doc, err := o.SubtreeJSON(nil); err == nil {
+		jsonSeed, _ = json.Marshal(doc)
+	}
+	ups := leafUpdates(o, nil, false)
+	req := &gpb.SetRequest{Update: ups}
+	nodes := dataNodes(cfg, t)
+	if len(nodes) > 0 {
+		nd := nodes[rng.Intn(len(nodes))]
+		req.Delete = append(req.Delete, lib.ToGNMIPath(nd.Path))
+		if ju, err := jsonUpdate(o, nil, nd.Path); err == nil {
+			req.Replace = append(req.Replace, ju)
+		}
+	}
+	for _, tg := range targets {
+		switch tg.Name {
+		case "Unmarshal":
+			run(tg, jsonSeed, "seed")
+			for k := 0; k < 8 && jsonSeed != nil; k++ {
+				var v interface{}
+				json.Unmarshal(jsonSeed, &v)
+				mv, what := mutateJSON(v, rng)
+				b, _ := json.Marshal(mv)
+				run(tg, b, what)
+			}
+			run(tg, flip(jsonSeed, rng), "byte-flip")
+		case "SetNode", "GetNode", "DeleteNode":
+			for k := 0; k < 6 && len(ups) > 0; k++ {
+				u := proto.Clone(ups[rng.Intn(len(ups))]).(*gpb.Update)
+				what := "seed"
+				switch k % 3 {
+				case 1:
+					what = mutatePath(u.Path, rng)
+				case 2:
+					what = mutateTV(u.Val, rng)
+				}
+				b, _ := proto.Marshal(u)
+				run(tg, b, what)
+			}
+		case "UnmarshalSetRequest", "UnmarshalNotifications":
+			for k := 0; k < 6; k++ {
+				rq := proto.Clone(req).(*gpb.SetRequest)
+				what := "seed"
+				all := append(append([]*gpb.Update{}, rq.Update...), rq.Replace...)
+				switch {
+				case k%3 == 1 && len(all) > 0:
+					what = mutatePath(all[rng.Intn(len(all))].Path, rng)
+				case k%3 == 2 && len(all) > 0:
+					what = mutateTV(all[rng.Intn(len(all))].Val, rng)
+				case k == 3 && len(rq.Update) > 0:
+					rq.Update = append(rq.Update, rq.Update...)
+					what = "repeated-updates"
+				}
+				if k == 4 {
+					switch i % 3 {
+					case 0:
+						rq.Prefix = &gpb.Path{Elem: []*gpb.PathElem{nil}}
+						what = "nil-prefix-elem"
+					case 1:
+						rq.Prefix = &gpb.Path{Origin: "openconfig"}
+						for _, u := range all {
+							u.Path.Origin = "cli"
+						}
+						for _, d := range rq.Delete {
+							d.Origin = "cli"
+						}
+						what = "prefix-origin-differs"
+					default:
+						rq.Prefix = &gpb.Path{Target: "dev1"}
+						for _, u := range all {
+							u.Path.Target = "dev2"
+						}
+						for _, d := range rq.Delete {
+							d.Target = "dev2"
+						}
+						what = "prefix-target-differs"
+					}
+				}
+				var b []byte
+				if tg.Name == "UnmarshalSetRequest" {
+					b, _ = proto.Marshal(rq)
+				} else {
+					b, _ = proto.Marshal(&gpb.Notification{Prefix: rq.Prefix, Update: rq.Update, Delete: rq.Delete, Atomic: k%2 == 0})
+				}
+				run(tg, b, what)
+			}
+		case "StringToPath":
+			for k := 0; k < 6 && len(ups) > 0; k++ {
+				s, err := ygot.PathToString(ups[rng.Intn(len(ups))].Path)
+				if err != nil {
+					continue
+				}
+				what := "seed"
+				if k > 0 {
+					s = string(flip([]byte(s), rng))
+					extra := []string{"[", "]", "\\", "=", "/", "[a=", "[=]", "//", "[[", "]]", "\\]"}
+					pos := rng.Intn(len(s) + 1)
+					s = s[:pos] + extra[rng.Intn(len(extra))] + s[pos:]
+					what = "path-string-mutation"
+				}
+				run(tg, []byte(s), what)
+			}
+		case "DiffSetRequest", "DiffSetRequestToNotifications":
+			for k := 0; k < 12; k++ {
+				ra := proto.Clone(req).(*gpb.SetRequest)
+				rb := proto.Clone(req).(*gpb.SetRequest)
+				if k >= 6 {
+					// without the delete of the replaced node: gnmidiff refuses that combination
+					// ("conflicting replaces") before looking at anything else
+					ra.Delete, rb.Delete = nil, nil
+				}
+				what := "seed"
+				all := append(append([]*gpb.Update{}, ra.Update...), ra.Replace...)
+				switch {
+				case k%6 == 1 && len(ra.Update) > 0:
+					ra.Update = append(ra.Update, ra.Update...)
+					ra.Delete, ra.Replace = nil, nil
+					what = "repeated-updates"
+				case k%6 == 2 && len(all) > 0:
+					what = mutatePath(all[rng.Intn(len(all))].Path, rng)
+				case k%6 == 3 && len(all) > 0:
+					what = mutateTV(all[rng.Intn(len(all))].Val, rng)
+				case k%6 == 4:
+					ra.Delete = append(ra.Delete, &gpb.Path{}, nil)
+					what = "empty-and-nil-delete"
+				case k%6 == 5 && len(all) > 0:
+					// the same malformed value on both sides (and twice on one side)
+					j := rng.Intn(len(all))
+					what = "both-sides:" + mutateTV(all[j].Val, rng)
+					allB := append(append([]*gpb.Update{}, rb.Update...), rb.Replace...)
+					allB[j].Val = proto.Clone(all[j].Val).(*gpb.TypedValue)
+					ra.Update = append(ra.Update, proto.Clone(all[j]).(*gpb.Update))
+				}
+				ab, _ := proto.Marshal(ra)
+				var bb []byte
+				if tg.Name == "DiffSetRequest" {
+					bb, _ = proto.Marshal(rb)
+				} else {
+					bb, _ = proto.Marshal(&gpb.Notification{Update: rb.Update})
+				}
+				run(tg, pair(ab, bb), what)
+			}
+		}
+	}
+	return len(jsonSeed), len(ups)
+}
+
+// C20Collect hands every input the seeded mutator builds from the first n trees
+// of cfg to emit (used as the seed corpus of the native fuzz target).
+func C20Collect(cfg *lib.Cfg, seed int64, n int, emit func(target string, data []byte)) {
+	targets := FuzzTargets()
+	for i := 0; i < n; i++ {
+		c20Inputs(cfg, seed, i, targets, func(tg FuzzTarget, data []byte, mutation string) {
+			if data != nil {
+				emit(tg.Name, data)
+			}
+		})
+	}
+}
+
 func runC20(r *lib.Run) {
 	r.Rule = "seed corpus = valid JSON documents, (path, TypedValue) pairs, SetRequests, Notifications and path strings produced from generated trees; each seed is fed as is and after structure-aware mutations (wrong JSON kind at one node, list element not an object, renamed/empty member names, nil or empty path elements, missing/extra/hostile keys, nil oneofs, malformed JSON payloads, repeated updates) and raw byte flips, to every entry point of the statement; oracle: the call returns (a recovered panic is the violation, signature = entry point + innermost ygot frame + normalised panic text); non-trivial = mutated input; distinct by target+input bytes"
 	n := r.N(150, 3000)
@@ -370,29 +549,6 @@ func runC20(r *lib.Run) {
 		for i := 0; i < n; i++ {
 			if skip(cfg, i) {
 				continue
-			}
-			opt := lib.DefaultGen()
-			opt.OrderedSiblings = true
-			opt.Unkeyed = i%2 == 0
-			t := lib.NewGen(cfg, r.Seed, i, opt).Tree()
-			o := cfg.Observe(t)
-			rng := rand.New(rand.NewSource(r.Seed*7121 + int64(i)))
-			// --- seeds
-			var jsonSeed []byte
-			if j, err := emit(t, nil); err == nil {
-				jsonSeed = []byte(j)
-			} else if doc, err := o.SubtreeJSON(nil); err == nil {
-				jsonSeed, _ = json.Marshal(doc)
-			}
-			ups := leafUpdates(o, nil, false)
-			req := &gpb.SetRequest{Update: ups}
-			nodes := dataNodes(cfg, t)
-			if len(nodes) > 0 {
-				nd := nodes[rng.Intn(len(nodes))]
-				req.Delete = append(req.Delete, lib.ToGNMIPath(nd.Path))
-				if ju, err := jsonUpdate(o, nil, nd.Path); err == nil {
-					req.Replace = append(req.Replace, ju)
-				}
 			}
 			run := func(tg FuzzTarget, data []byte, mutation string) {
 				if data == nil {
@@ -410,138 +566,9 @@ func runC20(r *lib.Run) {
 				}()
 				tg.Run(cfg, data)
 			}
-			for _, tg := range targets {
-				switch tg.Name {
-				case "Unmarshal":
-					run(tg, jsonSeed, "seed")
-					for k := 0; k < 8 && jsonSeed != nil; k++ {
-						var v interface{}
-						json.Unmarshal(jsonSeed, &v)
-						mv, what := mutateJSON(v, rng)
-						b, _ := json.Marshal(mv)
-						run(tg, b, what)
-					}
-					run(tg, flip(jsonSeed, rng), "byte-flip")
-				case "SetNode", "GetNode", "DeleteNode":
-					for k := 0; k < 6 && len(ups) > 0; k++ {
-						u := proto.Clone(ups[rng.Intn(len(ups))]).(*gpb.Update)
-						what := "seed"
-						switch k % 3 {
-						case 1:
-							what = mutatePath(u.Path, rng)
-						case 2:
-							what = mutateTV(u.Val, rng)
-						}
-						b, _ := proto.Marshal(u)
-						run(tg, b, what)
-					}
-				case "UnmarshalSetRequest", "UnmarshalNotifications":
-					for k := 0; k < 6; k++ {
-						rq := proto.Clone(req).(*gpb.SetRequest)
-						what := "seed"
-						all := append(append([]*gpb.Update{}, rq.Update...), rq.Replace...)
-						switch {
-						case k%3 == 1 && len(all) > 0:
-							what = mutatePath(all[rng.Intn(len(all))].Path, rng)
-						case k%3 == 2 && len(all) > 0:
-							what = mutateTV(all[rng.Intn(len(all))].Val, rng)
-						case k == 3 && len(rq.Update) > 0:
-							rq.Update = append(rq.Update, rq.Update...)
-							what = "repeated-updates"
-						}
-						if k == 4 {
-							switch i % 3 {
-							case 0:
-								rq.Prefix = &gpb.Path{Elem: []*gpb.PathElem{nil}}
-								what = "nil-prefix-elem"
-							case 1:
-								rq.Prefix = &gpb.Path{Origin: "openconfig"}
-								for _, u := range all {
-									u.Path.Origin = "cli"
-								}
-								for _, d := range rq.Delete {
-									d.Origin = "cli"
-								}
-								what = "prefix-origin-differs"
-							default:
-								rq.Prefix = &gpb.Path{Target: "dev1"}
-								for _, u := range all {
-									u.Path.Target = "dev2"
-								}
-								for _, d := range rq.Delete {
-									d.Target = "dev2"
-								}
-								what = "prefix-target-differs"
-							}
-						}
-						var b []byte
-						if tg.Name == "UnmarshalSetRequest" {
-							b, _ = proto.Marshal(rq)
-						} else {
-							b, _ = proto.Marshal(&gpb.Notification{Prefix: rq.Prefix, Update: rq.Update, Delete: rq.Delete, Atomic: k%2 == 0})
-						}
-						run(tg, b, what)
-					}
-				case "StringToPath":
-					for k := 0; k < 6 && len(ups) > 0; k++ {
-						s, err := ygot.PathToString(ups[rng.Intn(len(ups))].Path)
-						if err != nil {
-							continue
-						}
-						what := "seed"
-						if k > 0 {
-							s = string(flip([]byte(s), rng))
-							extra := []string{"[", "]", "\\", "=", "/", "[a=", "[=]", "//", "[[", "]]", "\\]"}
-							pos := rng.Intn(len(s) + 1)
-							s = s[:pos] + extra[rng.Intn(len(extra))] + s[pos:]
-							what = "path-string-mutation"
-						}
-						run(tg, []byte(s), what)
-					}
-				case "DiffSetRequest", "DiffSetRequestToNotifications":
-					for k := 0; k < 12; k++ {
-						ra := proto.Clone(req).(*gpb.SetRequest)
-						rb := proto.Clone(req).(*gpb.SetRequest)
-						if k >= 6 {
-							// without the delete of the replaced node: gnmidiff refuses that combination
-							// ("conflicting replaces") before looking at anything else
-							ra.Delete, rb.Delete = nil, nil
-						}
-						what := "seed"
-						all := append(append([]*gpb.Update{}, ra.Update...), ra.Replace...)
-						switch {
-						case k%6 == 1 && len(ra.Update) > 0:
-							ra.Update = append(ra.Update, ra.Update...)
-							ra.Delete, ra.Replace = nil, nil
-							what = "repeated-updates"
-						case k%6 == 2 && len(all) > 0:
-							what = mutatePath(all[rng.Intn(len(all))].Path, rng)
-						case k%6 == 3 && len(all) > 0:
-							what = mutateTV(all[rng.Intn(len(all))].Val, rng)
-						case k%6 == 4:
-							ra.Delete = append(ra.Delete, &gpb.Path{}, nil)
-							what = "empty-and-nil-delete"
-						case k%6 == 5 && len(all) > 0:
-							// the same malformed value on both sides (and twice on one side)
-							j := rng.Intn(len(all))
-							what = "both-sides:" + mutateTV(all[j].Val, rng)
-							allB := append(append([]*gpb.Update{}, rb.Update...), rb.Replace...)
-							allB[j].Val = proto.Clone(all[j].Val).(*gpb.TypedValue)
-							ra.Update = append(ra.Update, proto.Clone(all[j]).(*gpb.Update))
-						}
-						ab, _ := proto.Marshal(ra)
-						var bb []byte
-						if tg.Name == "DiffSetRequest" {
-							bb, _ = proto.Marshal(rb)
-						} else {
-							bb, _ = proto.Marshal(&gpb.Notification{Update: rb.Update})
-						}
-						run(tg, pair(ab, bb), what)
-					}
-				}
-			}
+			jl, nu := c20Inputs(cfg, r.Seed, i, targets, run)
 			if i < 2 {
-				r.Sample(map[string]interface{}{"cfg": cfg.Name, "json_seed_bytes": len(jsonSeed), "updates": len(ups)})
+				r.Sample(map[string]interface{}{"cfg": cfg.Name, "json_seed_bytes": jl, "updates": nu})
 			}
 		}
 	}
@@ -549,7 +576,87 @@ func runC20(r *lib.Run) {
 	for _, tg := range targets {
 		req = append(req, "target:"+tg.Name)
 	}
+	if bin := os.Getenv("VERIF_FUZZ_BIN"); bin != "" && !r.Quick() {
+		c20NativeFuzz(r, bin)
+		req = append(req, "native-fuzz:ran")
+	}
 	r.RequireCov(req...)
+}
+
+var fuzzExecsRe = regexp.MustCompile(`execs: (\d+)`)
+var fuzzInterestingRe = regexp.MustCompile(`new interesting: (\d+) \(total: (\d+)\)`)
+
+// c20NativeFuzz runs the coverage-guided fuzz target (harness/fuzz) for a fixed
+// number of executions and turns the panics it recorded into violations.
+func c20NativeFuzz(r *lib.Run, bin string) {
+	work := os.Getenv("VERIF_WORK")
+	if work == "" {
+		work = os.TempDir()
+	}
+	dir := filepath.Join(work, "fuzzrun")
+	os.RemoveAll(dir)
+	os.MkdirAll(dir, 0o755)
+	crashlog := filepath.Join(dir, "crashes.jsonl")
+	execs := os.Getenv("VERIF_FUZZ_EXECS")
+	if execs == "" {
+		execs = "400000"
+	}
+	cmd := exec.Command(bin, "-test.run=^$", "-test.fuzz=^FuzzC20$", "-test.fuzztime="+execs+"x", "-test.fuzzcachedir="+filepath.Join(dir, "cache"), "-test.parallel=16")
+	cmd.Dir = dir
+	cmd.Env = append(os.Environ(), "VERIF_FUZZ_CRASHLOG="+crashlog, fmt.Sprintf("VERIF_SEED=%d", r.Seed))
+	var out bytes.Buffer
+	cmd.Stdout, cmd.Stderr = &out, &out
+	done := make(chan error, 1)
+	if err := cmd.Start(); err != nil {
+		r.Inconclusive("native fuzzing could not start: " + err.Error())
+		return
+	}
+	go func() { done <- cmd.Wait() }()
+	var werr error
+	select {
+	case werr = <-done:
+	case <-time.After(40 * time.Minute): // watchdog only: the run is bounded by the execution count
+		cmd.Process.Kill()
+		r.Inconclusive("native fuzzing watchdog fired")
+		return
+	}
+	text := out.String()
+	os.WriteFile(filepath.Join(dir, "fuzz.log"), out.Bytes(), 0o644)
+	n := 0
+	for _, m := range fuzzExecsRe.FindAllStringSubmatch(text, -1) {
+		if v, _ := strconv.Atoi(m[1]); v > n {
+			n = v
+		}
+	}
+	interesting := 0
+	for _, m := range fuzzInterestingRe.FindAllStringSubmatch(text, -1) {
+		if v, _ := strconv.Atoi(m[2]); v > interesting {
+			interesting = v
+		}
+	}
+	r.HitN("native-fuzz:execs", n)
+	r.HitN("native-fuzz:coverage-increasing-inputs", interesting)
+	r.Extra("native_fuzz", map[string]interface{}{"execs": n, "corpus_total": interesting, "requested_execs": execs})
+	if n > 0 {
+		r.Hit("native-fuzz:ran")
+	} else {
+		r.Inconclusive("native fuzzing produced no executions: " + lib.Clip(text, 600))
+	}
+	if werr != nil && n == 0 {
+		return
+	}
+	// recorded panics
+	b, err := os.ReadFile(crashlog)
+	if err != nil {
+		return
+	}
+	for _, line := range strings.Split(string(b), "\n") {
+		var c map[string]string
+		if json.Unmarshal([]byte(line), &c) != nil || c["target"] == "" {
+			continue
+		}
+		r.Violate("panic", c["target"]+":"+c["frame"], fmt.Sprintf("%s panicked (native fuzzing): %s", c["target"], c["panic"]), map[string]interface{}{"cfg": c["cfg"], "target": c["target"], "input_hex": c["input_hex"], "found_by": "native fuzzing"})
+	}
 }
 
 func flip(b []byte, rng *rand.Rand) []byte {
